@@ -1,4 +1,5 @@
 import Proofs.SeriesP
+import Proofs.Series2
 
 /-! # C16 — series functions on blades with scalar square, scalars, and the scaling-and-squaring structure
 
@@ -34,6 +35,21 @@ theorem squaring_undoes_scaling (E : A) (j : Nat) : (fun r => r * r)^[j] E = E ^
 
 /-- commuting arguments have commuting (truncated) exponentials -/
 theorem exp_commute (X Y : A) (h : Commute X Y) (N M : Nat) : Commute (expTrunc N X) (expTrunc M Y) := expTrunc_comm X Y h N M
+
+/-- **`exp = cosh + sinh` between the truncations, for every multivector**: `evenTrunc 1 N` / `oddTrunc 1 N` are the coded
+    `cosh(X, N)` / `sinh(X, N)` (`X2n = X2n·X2`, coefficients `1/gamma(2n+1)`, `1/gamma(2n+2)`), and their sum is the
+    `2N`-term exponential series — so the library's `cosh(M) + sinh(M)` (N = 30) is the 60-term series of `M`, exactly -/
+theorem cosh_plus_sinh_is_exp (N : Nat) (X : A) : evenTrunc 1 N X + oddTrunc 1 N X = expTrunc (2 * N) X := cosh_add_sinh N X
+/-- the loop invariant behind those definitions: after `n` passes `X2n = (X·X)^n = X^{2n}` -/
+theorem series_loop_invariant (X : A) (n : Nat) : (X * X) ^ n = X ^ (2 * n) := sq_pow X n
+/-- parity of the trigonometric / hyperbolic truncations (`σ = −1` / `+1`) -/
+theorem even_series_parity (σ : ℚ) (N : Nat) (X : A) : evenTrunc σ N (-X) = evenTrunc σ N X := evenTrunc_neg σ N X
+theorem odd_series_parity (σ : ℚ) (N : Nat) (X : A) : oddTrunc σ N (-X) = - oddTrunc σ N X := oddTrunc_neg σ N X
+/-- on a blade with `B·B = s`: `cos/cosh_N(B)` is a scalar polynomial in `s`, `sin/sinh_N(B)` a scalar polynomial times `B` -/
+theorem cos_cosh_on_blade (σ : ℚ) (B : A) (s : ℚ) (h : B * B = s • (1 : A)) (N : Nat) :
+    evenTrunc σ N B = (∑ n ∈ range N, σ ^ n / ((2 * n).factorial : ℚ) * s ^ n) • (1 : A) := evenTrunc_blade σ B s h N
+theorem sin_sinh_on_blade (σ : ℚ) (B : A) (s : ℚ) (h : B * B = s • (1 : A)) (N : Nat) :
+    oddTrunc σ N B = (∑ n ∈ range N, σ ^ n / ((2 * n + 1).factorial : ℚ) * s ^ n) • B := oddTrunc_blade σ B s h N
 
 /-- non-vacuity: in ℚ itself, `B = 2`, `s = 4` -/
 example : ((2 : ℚ) * 2 = (4 : ℚ) • (1 : ℚ)) := by norm_num
